@@ -15,7 +15,7 @@ events, one predicate per reachable conditional jump / FOR_ITER of every code ob
 """
 
 from harness.core import Ctx
-from harness.props import _idioms, _pymini
+from harness.props import C04, _idioms, _pymini
 
 
 def run(ctx: Ctx) -> None:
@@ -26,7 +26,11 @@ def run(ctx: Ctx) -> None:
     ctx.assumptions = ["ground truth = sys.monitoring LINE events of f's code object on the uninstrumented module",
                        "coverable lines = statement lines of the rendered function body (the `def` line belongs to "
                        "the import trace)"]
-    n_i = _idioms.run(ctx, "C03")  # first: the children are forked from a still small process
+    # (3) callback level: over the C04 enumeration (comparison kind x value classes) the outcome Python
+    # takes is recorded exactly once, and nothing is recorded when the operator raises
+    C04.run_clauses(ctx, {"EvaluationRecorded", "NothingRecordedIfOpRaises"}, "C03")
+    n_cb = ctx.evaluations
+    n_i = _idioms.run(ctx, "C03") + n_cb  # first: the children are forked from a still small process
     _pymini.run_prop(ctx, "C03")
     ctx.evaluations += n_i
 
@@ -34,4 +38,6 @@ def run(ctx: Ctx) -> None:
 def replay(ctx: Ctx, rec: dict) -> int:
     if "idiom" in rec["behaviour"]:
         return _idioms.replay(ctx, rec, "C03")
+    if "kind" in rec["behaviour"]:
+        return C04.replay_clauses(ctx, rec, {"EvaluationRecorded", "NothingRecordedIfOpRaises"}, "C03")
     return _pymini.replay_prop(ctx, rec, "C03")
